@@ -2,14 +2,33 @@ from props_common import B
 
 PROP = {
     "crate": "c09",
-    "rule": "placeholder",
+    "rule": "Four kinds of case, each evaluated on every type of one float width (f32: Quat, Mat2, Mat3, Mat3A, Mat4, Affine2, Affine3A, Vec2; f64: DQuat, DMat2..4, DAffine2/3, DVec2) in one backend. "
+            "(1) rot-ctor: one (unit axis, angle, 2D vector) -> from_axis_angle, from_scaled_axis, from_rotation_x/y/z, from_angle, Vec2::from_angle+rotate; non-trivial when the axis is not a coordinate axis "
+            "and the angle is not a multiple of pi/2. (2) from-euler: one (EulerRot variant, angle triple); non-trivial when all three angles are non-zero. "
+            "(3) euler-roundtrip: one (EulerRot variant, rotation) where the rotation is a uniform unit quaternion, the reference Euler product of a triple rounded into the type, or glam's own from_euler of the triple "
+            "(middle angle at the singular value +- 0, 10^-k or log-uniform offsets); non-trivial when the source is a uniform quaternion or all three angles are non-zero. "
+            "(4) axis-angle-extract: one unit quaternion (uniform on S^3, near identity with |v| = 10^e, near a half turn, single-axis); non-trivial unless single-axis. "
+            "distinct = distinct hash of (float width, backend, operand bits). Classes record the axis kind, angle class, Euler order, order family x distance decade from the singularity, source kind and gimbal branch.",
     "builds": {
         "quick": [B("stable"), B("nightly", 0.25, False)],
-        "thorough": [B("stable"), B("nightly", 0.5, False)],
+        "thorough": [B("stable"), B("nightly", 0.25, False)],
     },
-    "technique": "placeholder",
-    "level_text": "placeholder",
-    "level_note": "placeholder",
+    "technique": "property-based testing: proptest generators (uniform and axis-aligned axes, dense/huge/tiny angles, all 24 Euler orders with middle angles constructed at and around the singularity, "
+                 "uniform and near-singular quaternions) against a reference written in the harness in double-double arithmetic (Rodrigues formula, elementary rotations and their products parsed from the variant NAME, "
+                 "quaternion algebra), in the SSE2, scalar-math, libm and nightly core-simd builds",
+    "level_text": "Generated-input search against an independent reference: every rotation constructor of the quaternion, 2x2, 3x3, 4x4 and affine types (f32 and f64) is compared entrywise with the Rodrigues formula / "
+                  "the literal single-axis rotation evaluated in ~106-bit arithmetic from the stored axis and angle (tolerance k*u*sum|terms|), checked to be a proper rotation and to agree across types; from_euler of all 24 "
+                  "EulerRot variants is compared with the product of the three elementary rotations in the order the variant name spells (intrinsic left to right, Ex reversed) for Quat/Mat3/Mat3A/Mat4 and f64 forms; "
+                  "to_euler is checked by rebuilding the rotation from the returned angles with the reference (and with glam's own from_euler) within k*u*(1+1/d), d = distance of the middle angle from the singularity, "
+                  "including the gimbal branch (k*u + 4d below the documented 16*EPSILON threshold); to_axis_angle / to_scaled_axis are checked by rebuilding +-q, axis unit, angle in [0, 2pi], fallback (X, 0) accepted only "
+                  "while theta^2 <= 8u. SSE2, scalar-math, libm and nightly core-simd builds. Exploration, not proof.",
+    "level_note": "Trusted: the double-double reference in engine/c09/src/refm.rs (self-tested at start-up against std sin/cos, addition theorems, Rodrigues = elementary = quaternion routes), "
+                  "to_cols_array/to_array for reading results, rustc, proptest. NEON/wasm32 backends cannot be built here.",
     "design_ref": "DESIGN.md section 5 C09",
-    "assumptions": [],
+    "assumptions": [
+        "the reference (double-double Taylor sin/cos with two-part pi/2 reduction, |error| < 1e-26 for |x| <= 1e6) is correct; it is cross-checked against std and against itself at start-up",
+        "sin/cos/atan2 of the platform libm (or the libm crate in the libm build) are accurate to 1 ulp; the tolerances count them as 2u",
+        "axes are unit to ~1.5u (normalised in the precision of the type); glam_assert is off in these variants",
+        "NEON and wasm32 sources are not compiled or executed (no target available offline)",
+    ],
 }
